@@ -674,6 +674,13 @@ def setup(ctx):
 
 def run(ctx):
   setup(ctx)
+  ctx.notes.append(
+      "three regions violate the property on the unchanged code and are reproduced by the binary32 model "
+      "(theorems half_bucket_f32_*_refuted): D12a bucket underflow (0 < max|col| < N*2^-126), D12b "
+      "subnormal entries / diagonal entries read as zero (XLA:CPU DAZ), D13 N*bucket overflows to inf "
+      "(max|col| within ~1 ulp of FLT_MAX).  They are proposed as known findings in "
+      "/verif/proposed_findings/C11.json (no small repair); until accepted into known_findings.json the "
+      "check reports them as VIOLATION impl-violates unless VERIF_PROPOSED_FINDINGS=1")
   known = common.load_known_findings("C11")
   corpus = load_corpus()
   cols = gen_columns(ctx)
